@@ -80,9 +80,10 @@ CHECKS = {
     "C10": {
         "level": "exploration",
         "technique": "property-based testing (rapid) over caller histories with generator-owned cancellation instants (yield-point hook between send and recv) against a scripted in-memory server; oracle: own identifier or error",
-        "level_text": "Generated-schedule exploration in real time, event driven: up to four goroutines share one client and issue calls with unique identifiers; each call has a cancellation plan (none, before the call, between send and receive once the server has read the request or has written the reply, short deadline) and a server plan (reply, reply late after the call was abandoned, never reply, close). The window between send and recv is opened by the yield-point hook, which runs on the caller's goroutine and knows which request was sent. Every call must return within 30 s with an error or the response echoing its own identifier; undisturbed calls on a healthy server must succeed.",
+        "level_text": "Generated-schedule exploration in real time, event driven: up to four goroutines share one client and issue calls with unique identifiers; each call has a cancellation plan (none, before the call, between send and receive once the server has read the request or has written the reply, short deadline) and a server plan (reply, reply late after the call was abandoned, never reply, close). The window between send and recv is opened by the yield-point hook, which runs on the caller's goroutine and knows which request was sent. Every call must return within 30 s with an error or the response echoing its own identifier; undisturbed calls on a healthy server must succeed. One case in three, and a job of its own built with the race detector in both tiers, hands the callers a Clone() nobody has used yet and releases them together.",
         "level_note": "Interleavings of lock acquisition are left to the scheduler; the 30 s watchdog is a hang verdict only (the driver maps budget time-outs to inconclusive).",
-        "jobs": [dict(rapid("client", "TestC10OwnResponse", 1200, 6000, timeout_s={"quick": 900, "thorough": 1700}), race=True)],
+        "jobs": [dict(rapid("client", "TestC10OwnResponse", 1200, 6000, timeout_s={"quick": 900, "thorough": 1700}), race=True),
+                 dict(rapid("client", "TestC10FreshClone", 150, 3000), race="always")],
         "assumptions": [],
     },
     "C11": {
